@@ -487,6 +487,25 @@ pub fn run_bytes(case: &Case, out: &mut Outcome) -> Option<Failure> {
                     return Some(Failure { sig: format!("C04/livelock/{ph}"), msg: format!("poll budget exhausted when run() was called again; input {}", hex(&case.bytes)) });
                 }
                 out.class("called-again-after-return");
+                // and again with every handle gone, and once more after that
+                if w.ctx_idle_or_returned() {
+                    for h in 0..w.handles.len() {
+                        w.drop_handle(h);
+                    }
+                    for _ in 0..2 {
+                        if !w.ctx_idle_or_returned() {
+                            break;
+                        }
+                        w.tick();
+                        if !w.start_run() {
+                            break;
+                        }
+                        settle(&mut w, &plan, true);
+                        if let Some(f) = check_panics(&w, out) {
+                            return Some(Failure { sig: f.sig, msg: format!("[run() called again after it had returned and every handle was dropped] {}", f.msg) });
+                        }
+                    }
+                }
             }
         }
         // a connection that was accepted must be servable: run() on it answers a QoS 1 PUBLISH
